@@ -13,7 +13,7 @@ Import ListNotations.
 Open Scope N_scope.
 
 (* ---- send side: for both versions and EVERY interleaving of Write / flights / retransmissions / activation /
-   establishment / alerts / Close / KeyUpdate / tickets / ACKs / RRC ---- *)
+   establishment / alerts / Close / KeyUpdate / tickets / ACKs / RRC / Resume of an exported state ---- *)
 
 (* application data is emitted only after establishment, always protected, never at epoch 0
    (DTLS 1.3: at an application epoch >= 3) *)
@@ -71,6 +71,13 @@ Theorem C07_epoch0_appdata_not_delivered :
 Proof. exact epoch0_appdata_not_delivered. Qed.
 Print Assumptions C07_epoch0_appdata_not_delivered.
 
+(* ... and it is refused silently: no alert, no error, nothing committed, in every state *)
+Theorem C07_epoch0_appdata_silent :
+  forall (W : nat) (lease : bool) (s : rstate) (w : wire) (p : bytes),
+    w_epoch w = 0 -> w_clear w = CApp p -> recv W lease s w = (s, []).
+Proof. exact epoch0_appdata_silent. Qed.
+Print Assumptions C07_epoch0_appdata_silent.
+
 (* ---- exporter secrecy (symbolic) ---- *)
 
 (* DTLS 1.2, RFC 5705: P_hash(master_secret, label || client_random || server_random).  If the master secret is
@@ -98,6 +105,24 @@ Theorem C07_exporter13_underivable :
     ~ derives K (exporter13 ems label).
 Proof. exact exporter13_underivable. Qed.
 Print Assumptions C07_exporter13_underivable.
+
+(* PSK suites: an underivable pre-shared key keeps the exporter underivable ... *)
+Theorem C07_exporter12_from_psk :
+  forall (K : term -> Prop) (psk label cr sr : term),
+    ~ derives K psk -> (forall l s, ~ ana K (TPrf (pms_psk psk) l s)) ->
+    (forall l s, ~ ana K (TPrf (ms12 (pms_psk psk) cr sr) l s)) ->
+    ~ derives K (exporter12 (ms12 (pms_psk psk) cr sr) label cr sr).
+Proof. exact exporter12_from_psk. Qed.
+Print Assumptions C07_exporter12_from_psk.
+
+(* ... but with the EMPTY key everything down to the exporter is computable from the hello randoms: the premise
+   is void, so an empty key returned by the PSK callback must be refused (f39ce00; the harness checks it, and
+   recomputes P_hash(PRF(00000000, "master secret", cr|sr), label|cr|sr) from the captured hellos) *)
+Theorem C07_exporter12_empty_psk_refuted :
+  forall (K : term -> Prop) (label cr sr : N),
+    derives K (exporter12 (ms12 (pms_psk empty) (TPub cr) (TPub sr)) (TPub label) (TPub cr) (TPub sr)).
+Proof. exact exporter12_empty_psk_refuted. Qed.
+Print Assumptions C07_exporter12_empty_psk_refuted.
 
 (* a knowledge set made of wire-observable terms only never yields a secret atom *)
 Theorem C07_cleartext_keeps_secrets :
@@ -129,6 +154,14 @@ Example C07_example_13 :
   = [(false, clr 1); (false, hs13 11); (false, hs13 15); (false, hs13 20);
      (true, mkE KApp 3 true); (true, mkE (KHs 24) 3 true); (true, mkE KApp 4 true); (true, mkE KAlert 4 true)].
 Proof. vm_compute. reflexivity. Qed.
+
+(* resumed states: one captured before the keys were switched on (local epoch 0, e.g. in VerifyConnection) is
+   refused, so a Write on it emits nothing; one exported at epoch 1 writes protected at epoch 1 *)
+Example C07_example_resume :
+  run (sinit V12) [OResume 0; OWrite] = [] /\
+  run (sinit V12) [OResume 1; OWrite; OClose] = [(true, mkE KApp 1 true); (true, mkE KAlert 1 true)] /\
+  run (sinit V13) [OResume 3; OWrite] = [].
+Proof. vm_compute. repeat split; reflexivity. Qed.
 
 Example C07_example_exporter :
   ~ derives K0 (exporter12 (ms12 (TSec 1) (TPub 10) (TPub 11)) (TPub 5) (TPub 10) (TPub 11)).
